@@ -94,10 +94,12 @@ class TU:
                             callers[fid].append((f, n))
             done = False
             for f in list(self.fns):
-                if f.kind not in ('method', 'operator', 'ctor', 'dtor') or f.body is None or f.body_helper is not None:
+                if f.kind not in ('method', 'operator', 'ctor', 'dtor', 'free') or f.body is None or f.body_helper is not None:
                     continue
                 body_only = f.kind in ('ctor', 'dtor')      # the helper is the *body*; initialisers and member destruction stay with f
                 st = f.kids(f.body) if f.nodes[f.body]['cls'] == 'CompoundStmt' else []
+                # local type aliases / static_asserts declare no objects
+                st = [x for x in st if not (f.nodes[x]['cls'] == 'DeclStmt' and not f.nodes[x].get('decls')) and f.nodes[x]['cls'] != 'NullStmt']
                 if len(st) != 1:
                     continue
                 n = st[0]
@@ -113,10 +115,24 @@ class TU:
                 if len(gs) != 1:
                     continue
                 g = gs[0]
-                if g is f or g.cls != f.cls or g.clsq != f.clsq or g.kind != 'method':
+                to_free = f.kind in ('method', 'operator') and g.kind == 'free' and '/include/eventpp/' in (g.file or '')
+                if g is f:
+                    continue
+                if not to_free and (g.cls != f.cls or g.clsq != f.clsq or g.kind != ('free' if f.kind == 'free' else 'method')):
+                    continue
+                if f.kind == 'free' and (g.skey.rsplit('::', 1)[0] != f.skey.rsplit('::', 1)[0] or '::' not in f.skey):
                     continue
                 if len(callers.get(g.id, [])) != 1:
-                    continue
+                    if not to_free or self.lambdas_of.get(g.id):
+                        continue
+                    # a library free function shared by several classes (same map / mutex / event types): this forwarder gets its own copy
+                    import copy
+                    d2 = copy.deepcopy(g.d)
+                    d2['id'] = max(self.by_id) + 1
+                    g = Fn(self, d2)
+                    self.by_id[g.id] = g
+                    self.fns.append(g)
+                    self.by_key[g.skey].append(g)
                 obj = f.call_obj(n)
                 if obj is not None and f.nodes[f.strip(obj)]['cls'] != 'CXXThisExpr':
                     continue
@@ -127,11 +143,19 @@ class TU:
                 seen = []
                 selfs = set()
                 subst = {}
+                tags = set()
                 ok = True
                 from .paths import path as _path
                 for a, gp in zip(args, g.params):
                     v = f.value_source(a)
                     o = f.nodes[v]
+                    # tag dispatch: a temporary of an empty tag type (std::true_type, an empty struct) selects the overload and carries no value
+                    gt0 = self.type(gp['t'])
+                    if f.is_construct(v) and not [x for x in o.get('args', []) if f.nodes[x]['cls'] != 'CXXDefaultArgExpr'] and gt0 and not gt0.get('ref') \
+                            and gt0.get('size') == 1 and (gt0.get('rec') or '').split('<')[0] in ('std::integral_constant', 'std::true_type', 'std::false_type') and not any(
+                                h.nodes[m]['cls'] == 'DeclRefExpr' and (h.decl(m) or {}).get('id') == gp['id'] for h in [g] for m in h.nodes):
+                        tags.add(gp['id'])
+                        continue
                     if o['cls'] == 'UnaryOperator' and o.get('op') == '*' and f.nodes[f.strip(f.kids(v)[0])]['cls'] == 'CXXThisExpr':
                         selfs.add(gp['id'])
                         continue
@@ -168,7 +192,7 @@ class TU:
                     self.collapsed.append((f.skey, g.skey, f.where()))
                     done = True
                     continue
-                if not selfs and not subst:
+                if not selfs and not subst and not tags:
                     continue      # `this->g(args)`: both names are real member functions; rules follow such helpers themselves
                 # g becomes f
                 self.collapsed.append((f.skey, g.skey, f.where()))
@@ -178,11 +202,16 @@ class TU:
                 self.by_key[g.skey] = [x for x in self.by_key[g.skey] if x is not g]
                 self.by_key[f.skey] = [g if x is f else x for x in self.by_key[f.skey]]
                 g.helper_skey = g.skey
-                for attr in ('key', 'skey', 'q', 'name', 'kind', 'line', 'loc', 'access'):
+                # an overload pair moved behind one forwarder (tag dispatch): keep the ordinal of the selected overload in the pattern name, so
+                # that findings keep the key they had when the pair carried the public name itself
+                gp_old, fp_old = g.pattern(), f.pattern()
+                if tags and '#' in gp_old and '#' not in fp_old:
+                    g.pattern_override = fp_old + '#' + gp_old.rsplit('#', 1)[1]
+                for attr in ('key', 'skey', 'q', 'name', 'kind', 'line', 'loc', 'access', 'cls', 'clsq'):
                     setattr(g, attr, getattr(f, attr))
                 g.self_params = selfs
                 g.param_subst = subst
-                g.params = [p for p in g.params if p['id'] not in subst]
+                g.params = [p for p in g.params if p['id'] not in subst and p['id'] not in tags]
                 for h in self.fns:
                     x = h
                     while x is not None and x is not g:
@@ -268,6 +297,7 @@ class Fn:
         self.self_params = set()
         self.param_subst = {}
         self.helper_skey = None
+        self.pattern_override = None
         self.body_helper = None      # constructor / destructor whose body is one call of a private helper: that helper (facts.TU._collapse_forwarders)
         self.forward_of = None
 
@@ -346,6 +376,8 @@ class Fn:
             p = self.tu.by_id.get(self.parent_id)
             if p is not None:
                 return '%s::lambda#%d' % (p.pattern(), self.lambda_index)
+        if self.pattern_override:
+            return self.pattern_override
         ov = self.tu.overloads.get(self.skey)
         if ov and self.line in ov and self.kind not in ('ctor',):
             return '%s#%d' % (self.skey, ov.index(self.line) + 1)
@@ -486,6 +518,46 @@ class Fn:
             if len(ks) == 3:
                 return self.value_alternatives(ks[1]) + self.value_alternatives(ks[2])
         return [x]
+
+    def result_sites(self):
+        """[(site node, value node)]: where the function's result values are produced. `return e;` is a site of e (each arm of a
+        conditional operator separately); with a result variable (`T r = a; if(c) r = b; return r;`) the initialisation and every
+        assignment of that local are the sites - each has its own CFG position, so dominance rules written for early returns apply."""
+        out = []
+        for r in self.return_nodes():
+            ks = self.kids(r)
+            if not ks:
+                continue
+            for v in self.value_alternatives(ks[0]):
+                o = self.nodes[v]
+                vd = None
+                if o['cls'] == 'DeclRefExpr' and (self.decl(v) or {}).get('kind') == 'var':
+                    vd = self.var_decls().get(self.decl(v)['id'])
+                    vt = self.tu.type(vd['t']) if vd else None
+                    if vt and (vt.get('ref') or vt.get('const')):
+                        vd = None
+                if vd is None:
+                    out.append((r if len(self.value_alternatives(ks[0])) == 1 else v, v))
+                    continue
+                vid = self.decl(v)['id']
+                if vd.get('init'):
+                    for a in self.value_alternatives(vd['init']):
+                        out.append((vd['stmt'], a))
+                for m, mo in self.nodes.items():
+                    if mo['cls'] in ('BinaryOperator', 'CXXOperatorCallExpr') and mo.get('op') == '=':
+                        mk = self.kids(m) if mo['cls'] == 'BinaryOperator' else mo.get('args', [])
+                        if len(mk) == 2:
+                            lhs = self.strip_all_casts(mk[0])
+                            if self.nodes[lhs]['cls'] == 'DeclRefExpr' and (self.decl(lhs) or {}).get('id') == vid:
+                                for a in self.value_alternatives(mk[1]):
+                                    out.append((m, a))
+        seen = set()
+        res = []
+        for x in out:
+            if x not in seen:
+                seen.add(x)
+                res.append(x)
+        return res
 
     def cond_core(self, n):
         """(node, negated): the expression a branch condition really tests - casts stripped, leading `!` peeled, and a local
